@@ -68,7 +68,9 @@ RULE = ('graphs mixing redo-ifcreate watchers (standard idiom: ifchange if the p
         'plus: redo-ifcreate on an existing path must fail, on an absent path must succeed, also from a script that has changed directory (the path counts from where the script stands). Non-trivial: a rebuild caused by a '
         'created path or by redo-always was observed and >=3 commands. Distinct: (graph shape, op sequence). '
         'Not-before layer: T watches F with redo-ifcreate, F never exists, and in the same runs another script tries to build F, fails (no rule / failing rule) '
-        'and carries on, in both orders and at -j1/-j3: over three commands T runs exactly once.')
+        'and carries on, in both orders and at -j1/-j3: over three commands T runs exactly once. '
+        'Appears-as layer: the watched path comes into existence as a regular file, an empty file, a directory (empty / with content), a symbolic link to a '
+        'directory or to a file, or a fifo; directly or below directories that did not exist either; watcher requested directly or from below: runs [1,0,1,0] over four commands.')
 ASSUME = ['reference model rvlib/model.py', 'anomalies are counted here only if the target involved is an ifcreate watcher / always node (or a command-level exit mismatch)']
 
 
@@ -117,6 +119,65 @@ def notbefore_case(item):
     return res
 
 
+APPEAR = {
+    'file': 'echo x > "$P"',
+    'empty-file': ': > "$P"',
+    'dir': 'mkdir "$P"',
+    'dir-with-content': 'mkdir "$P" && echo x > "$P/f"',
+    'link-to-dir': 'mkdir real.d && ln -s "$PWD/real.d" "$P"',
+    'link-to-file': 'echo x > real.f && ln -s "$PWD/real.f" "$P"',
+    'fifo': 'mkfifo "$P"',
+}
+
+
+def appears_case(item):
+    """The watched path comes into existence as something else than a regular file (a directory, a link to one, a fifo, ...), directly or
+    below directories that did not exist either.  The watcher runs at the first request after that - once - and not before, not again."""
+    _, kind, path, via, seed = item
+    files = {
+        'T.do': scen.TRACE_HDR + 'echo "S $1 $$ $PPID" >&9\nif [ -e "%s" ]; then echo present; else redo-ifcreate "%s"; echo absent; fi > "$3"\necho "E $1 $$ 0" >&9\n' % (path, path),
+        'top.do': scen.TRACE_HDR + 'echo "S $1 $$ $PPID" >&9\nredo-ifchange T\ncat T > "$3"\necho "E $1 $$ 0" >&9\n',
+    }
+    pj = scen.Project(files, 'c14a')
+    anoms = []
+    obs = dict(appear_rounds=1, commands=0)
+    goal = 'top' if via == 'below' else 'T'
+    try:
+        seq = []
+        for k in range(4):
+            if k == 2:
+                import subprocess
+                d = os.path.dirname(path)
+                pre = ('mkdir -p "%s" && ' % d) if d else ''
+                rc = subprocess.call(['sh', '-c', 'P="%s"; %s%s' % (path, pre, APPEAR[kind])], cwd=pj.top)
+                if rc != 0 or not os.path.exists(os.path.join(pj.top, path)):
+                    return dict(verdict='inconclusive', why='could not create the path', sample=dict(item=list(item)))
+            open(pj.trace, 'w').close()
+            r, _ = pj.run(['redo-ifchange', goal])
+            if r.status != 'exit' or r.panicked():
+                return dict(verdict='inconclusive', why='command %d did not end normally: %s' % (k, r.status), sample=dict(item=list(item)))
+            obs['commands'] += 1
+            if r.rc != 0:
+                anoms.append(dict(key='appears:nonzero:%s' % kind, what='command %d: exit %s: %s' % (k, r.rc, r.err[-200:].replace('\n', ' | '))))
+                break
+            ex = [l.split(' ')[1] for l in pj.trace_text().split('\n') if l.startswith('S ')]
+            seq.append(ex.count('T'))
+        if not anoms and seq != [1, 0, 1, 0]:
+            anoms.append(dict(key='watcher-%s:path-appears-as-%s' % ('not-run-after-the-path-exists' if seq[:3] == [1, 0, 0] else 'runs-at-the-wrong-time', kind),
+                              what='T (redo-ifcreate %s) ran %s times in the four commands (the path appears as %s before the third), expected [1, 0, 1, 0]' % (path, seq, kind)))
+        tf = (common.read_file(os.path.join(pj.top, 'T')) or b'').decode().strip()
+        if not anoms and tf != 'present':
+            anoms.append(dict(key='watcher-stale:path-appears-as-%s' % kind, what='T holds %r' % tf))
+    finally:
+        pj.close()
+    res = dict(verdict='violated' if anoms else 'held', nontrivial=obs['commands'] == 4, shape=common.shash(list(item)),
+               sample=dict(kind='appears', as_=kind, path=path, via=via), obs=obs, sets=dict(appears_as=['%s:%s' % (kind, 'nested' if '/' in path else 'flat')]))
+    if anoms:
+        res['violations'] = anoms[:2]
+        res['replay'] = dict(kind='appears', item=list(item))
+    return res
+
+
 class Dispatch:
     def __init__(self, hist):
         self.hist = hist
@@ -124,6 +185,8 @@ class Dispatch:
     def __call__(self, item, **kw):
         if isinstance(item, (tuple, list)) and item and item[0] == 'notbefore':
             return notbefore_case(tuple(item))
+        if isinstance(item, (tuple, list)) and item and item[0] == 'appears':
+            return appears_case(tuple(item))
         return self.hist(item, **kw)
 
 
@@ -131,12 +194,23 @@ def main(tier):
     n, budget = (240, 70) if tier == 'quick' else (5000, 780)
     extra = [('notbefore', why, order, j, rep) for rep in range(1 if tier == 'quick' else 4)
              for why in ('no-rule', 'rule-fails') for order in (('U', 'T'), ('T', 'U')) for j in (1, 3)]
+    extra += [('appears', kind, path, via, rep) for rep in range(1 if tier == 'quick' else 3) for kind in sorted(APPEAR)
+              for path, via in ((('plugins', 'direct'), ('vendor/lib/x', 'below')) if tier == 'quick' else (('plugins', 'direct'), ('plugins', 'below'), ('vendor/lib/x', 'direct'), ('vendor/lib/x', 'below'), ('a b/c', 'direct')))]
     return histcheck.run(PROP, tier, Dispatch(CASE), extra + histcheck.seeds_for(PROP, tier, n), 'exploration', RULE, ASSUME, budget, floor=20)
 
 
 def replay(path):
     import json
     d = json.load(open(path))
+    if d['replay'].get('kind') == 'appears':
+        common.ensure_built()
+        r = appears_case(tuple(d['replay']['item']))
+        print(r.get('verdict'), r.get('violations'))
+        common.cleanup_scratch()
+        if r.get('verdict') == 'violated':
+            print('VIOLATION property=%s replay=%s' % (PROP, path))
+            return 1
+        return 0
     if d['replay'].get('kind') == 'notbefore':
         common.ensure_built()
         it = d['replay']['item']
